@@ -707,6 +707,8 @@ def check_c03(run):
     if C is None:
         return
     corpus_ties(run, C)
+    hyp_coverage_types(run, C, "types_satisfying_locality_hypothesis_local_from_b", "Local",
+                       "fun a n => match gen a with EOk md => local_from_b a md n | _ => false end")
     k3bad = set(C["k3"]["dis"])
     prev = None
     for n, c in enumerate(C["cases"]):
